@@ -104,7 +104,7 @@ auto trsm(Context&& ctxt, blas::side a_side, blas::filling a_fill, blas::diagona
 			else                                    {assert(0 && "not implemented in blas");}  // LCOV_EXCL_LINE
 		} else if constexpr(   is_conjugated<A2D>{} &&     is_conjugated<B2D>{}) {
 			if     (stride( a)==1 && stride(~b)==1) {CTXT->trsm(static_cast<char>(swap(a_side)), static_cast<char>(-a_fill), 'T', static_cast<char>(a_diag), size(~b), size( b), conj(alpha), underlying(a.base()), stride(~a), underlying(b.base()), stride( b));}
-			else if(stride(~a)==1 && stride( b)==1) {CTXT->trsm(static_cast<char>(    (a_side)), static_cast<char>(+a_fill), 'T', static_cast<char>(a_diag), size( b), size(~b), conj(alpha), underlying(a.base()), stride( a), underlying(bbase(b)), stride(~b));}
+			else if(stride(~a)==1 && stride( b)==1) {CTXT->trsm(static_cast<char>(    (a_side)), static_cast<char>(+a_fill), 'T', static_cast<char>(a_diag), size( b), size(~b), conj(alpha), underlying(a.base()), stride( a), underlying(b.base()), stride(~b));}
 			else                                    {assert(0 && "not implemented in blas");}  // LCOV_EXCL_LINE
 		}
 		#undef CTXT
